@@ -21,7 +21,7 @@ from ..libgen import ir, libs
 
 LEVEL = "exploration"
 PYINC = sysconfig.get_paths()["include"]
-PY_UNSUPPORTED = {"vec_in", "vec_out", "vec_inout", "cstr_inout"}
+PY_UNSUPPORTED = {"vec_out", "vec_inout", "cstr_inout"}
 
 
 def py_callable(f):
@@ -88,7 +88,7 @@ WRONG = {"i": [{"f": "0x1.8p+1"}, "str", {"special": "none"}, [1], {"special": "
 
 def arg_class(p, T):
     k = p["kind"]
-    if k in ("arr_in", "arr_inout"):
+    if k in ("arr_in", "arr_inout", "vec_in"):
         return "a"
     if k in ir.STR_KINDS:
         return "s"
@@ -131,7 +131,7 @@ def build_plan(lib, r, thorough):
                     variants = [dict(base)]
                     for p in use:
                         opts = (libs.battery(p["T"]) if p["kind"] in ("val", "ptr_in", "ptr_inout", "ref_inout") else
-                                ([[], [libs.battery(p["T"])[1]], list(libs.battery(p["T"])[:5])] if p["kind"] in ("arr_in", "arr_inout") else
+                                ([[], [libs.battery(p["T"])[1]], list(libs.battery(p["T"])[:5])] if p["kind"] in ("arr_in", "arr_inout", "vec_in") else
                                  ["", " ", "a b ", "x" * 39]))
                         if p.get("role") == "count":
                             opts = [0, 1, 4]
